@@ -231,7 +231,7 @@ pub fn shared(seed: u64, nthreads: usize, ncalls: usize, out: &mut Vec<Value>) {
     for round in 0..rounds {
         // (a crash of the code under test while the next instance is built is data, not a harness failure)
         let r = match catch(AssertUnwindSafe(|| frozen_tree(&secrets, &idxs, lim, &fill))) {
-            Ok(r) => Arc::new(r),
+            Ok(r) => Arc::new(Shared(r)),
             Err(m) => {
                 for t in 0..nthreads {
                     out.push(json!({"t": "thread", "thr": t, "round": round, "finished": false,
